@@ -266,6 +266,9 @@ type PodSpec struct {
 	OverCPU  int64  `json:"overCPU,omitempty"`
 	OverMem  int64  `json:"overMem,omitempty"`
 	Split    int    `json:"split,omitempty"` // number of containers the request is split over (>=1)
+	// Cross adds a required node-affinity expression that mentions another group without selecting it:
+	// "notin:<g>" = (g's key NotIn [g's value]), "otherkey:<g>" = (unrelated key In [g's value]), "exists:<g>" = (g's key Exists)
+	Cross string `json:"cross,omitempty"`
 	Finished bool   `json:"finished,omitempty"`
 }
 
@@ -309,6 +312,30 @@ func (w *World) NewPod(s PodSpec) *v1.Pod {
 		case "affinity":
 			p.Spec.Affinity = &v1.Affinity{NodeAffinity: &v1.NodeAffinity{RequiredDuringSchedulingIgnoredDuringExecution: &v1.NodeSelector{
 				NodeSelectorTerms: []v1.NodeSelectorTerm{{MatchExpressions: []v1.NodeSelectorRequirement{{Key: o.LabelKey, Operator: v1.NodeSelectorOpIn, Values: []string{"zzz", o.LabelValue}}}}}}}}
+		}
+	}
+	if s.Cross != "" {
+		var kind string
+		var og int
+		if _, err := fmt.Sscanf(strings.Replace(s.Cross, ":", " ", 1), "%s %d", &kind, &og); err == nil && og >= 0 && og < len(w.Cfg.Groups) {
+			oo := &w.Cfg.Groups[og].Opts
+			var r v1.NodeSelectorRequirement
+			switch kind {
+			case "notin":
+				r = v1.NodeSelectorRequirement{Key: oo.LabelKey, Operator: v1.NodeSelectorOpNotIn, Values: []string{oo.LabelValue}}
+			case "otherkey":
+				r = v1.NodeSelectorRequirement{Key: "unrelated/" + oo.LabelKey, Operator: v1.NodeSelectorOpIn, Values: []string{oo.LabelValue}}
+			default:
+				r = v1.NodeSelectorRequirement{Key: oo.LabelKey, Operator: v1.NodeSelectorOpExists}
+			}
+			if p.Spec.Affinity == nil {
+				p.Spec.Affinity = &v1.Affinity{NodeAffinity: &v1.NodeAffinity{RequiredDuringSchedulingIgnoredDuringExecution: &v1.NodeSelector{}}}
+			}
+			req := p.Spec.Affinity.NodeAffinity.RequiredDuringSchedulingIgnoredDuringExecution
+			if len(req.NodeSelectorTerms) == 0 {
+				req.NodeSelectorTerms = []v1.NodeSelectorTerm{{}}
+			}
+			req.NodeSelectorTerms[0].MatchExpressions = append(req.NodeSelectorTerms[0].MatchExpressions, r)
 		}
 	}
 	if s.Daemon {
@@ -383,6 +410,9 @@ func (a Action) String() string {
 			if p.Split > 1 {
 				s += fmt.Sprintf(" containers=%d", p.Split)
 			}
+			if p.Cross != "" {
+				s += " cross=" + p.Cross
+			}
 			s += "}"
 		}
 		s += " ]"
@@ -390,6 +420,8 @@ func (a Action) String() string {
 		add("g=%d n=%d ages=%v", a.Group, a.N, a.Ages)
 	case "taint":
 		add("node=%s %s=%q:%s", a.Node, a.Key, a.Val, a.Effect)
+	case "setCreated":
+		add("node=%s zero=%v age=%ds", a.Node, a.Flag, a.N)
 	case "untaint":
 		add("node=%s key=%s", a.Node, a.Key)
 	case "cordon":
@@ -594,6 +626,23 @@ func (w *World) Apply(a Action) (rec *ScanRecord, ok bool) {
 			n.Status.Allocatable = v1.ResourceList{v1.ResourceCPU: qty(cpu), v1.ResourceMemory: qtyB(mem)}
 		} else {
 			ok = false
+		}
+	case "setCreated": // creation timestamp: zero value (Flag) or N seconds ago
+		if n := w.K.Nodes[a.Node]; n != nil {
+			if a.Flag {
+				n.CreationTimestamp = metav1.Time{}
+			} else {
+				n.CreationTimestamp = metav1.NewTime(time.Now().Add(-time.Duration(a.N) * time.Second).Truncate(time.Second))
+			}
+		} else {
+			ok = false
+		}
+	case "drainAndForce": // the named nodes lose their pods and get the force-removal taint
+		for _, name := range a.Names {
+			if n := w.K.Nodes[name]; n != nil {
+				w.dropPodsOn(name)
+				n.Spec.Taints = append(removeTaint(n.Spec.Taints, ref.ForceTaintKey), v1.Taint{Key: ref.ForceTaintKey, Value: fmt.Sprint(time.Now().Unix()), Effect: v1.TaintEffectNoSchedule})
+			}
 		}
 	case "restart":
 		w.Ctrl = nil
